@@ -57,13 +57,14 @@ def roundDecimal (neg : Bool) (digits : Nat) (exp10 : Int) : Nat :=
                  else F64.roundPos digits (10 ^ (-exp10).toNat)
       F64.withSign neg mag
 
-/-- The value Go computes for the decimal syntax, `none` on a syntax error.  On overflow this is
-±Inf (Go returns ±Inf *and* `ErrRange`). -/
-def parseSat (s : List Nat) : Option Nat :=
-  let (neg, body) := match s with
-    | 43 :: r => (false, r)
-    | 45 :: r => (true, r)
-    | _ => (false, s)
+/-- Optional leading sign of `readFloat`: `(negative?, rest)`. -/
+def splitSign : List Nat → Bool × List Nat
+  | 45 :: r => (true, r)
+  | 43 :: r => (false, r)
+  | s => (false, s)
+
+/-- `readFloat` after the sign. -/
+def parseBody (neg : Bool) (body : List Nat) : Option Nat :=
   let m := mantLoop body { digits := 0, nd := 0, dp := 0, sawdot := false, sawdigits := false, rest := [] }
   if !m.sawdigits then none
   else
@@ -85,6 +86,10 @@ def parseSat (s : List Nat) : Option Nat :=
             if !tail.isEmpty then none
             else some <| roundDecimal neg m.digits (dp + esign * Int.ofNat e - Int.ofNat m.nd)
       else none
+
+/-- The value Go computes for the decimal syntax, `none` on a syntax error.  On overflow this is
+±Inf (Go returns ±Inf *and* `ErrRange`). -/
+def parseSat (s : List Nat) : Option Nat := parseBody (splitSign s).1 (splitSign s).2
 
 /-- `strconv.ParseFloat(s, 64)` with `err == nil`: syntax OK and no overflow. -/
 def parse (s : List Nat) : Option Nat :=
